@@ -185,7 +185,9 @@ inline MessageRef HostileMessage(uint64_t gseed, int tmpl)
       {
          // a node path up to and beyond MUSCLE_MAX_NODE_DEPTH, and a pattern with very many clauses
          m = GetMessageFromPool(r.oneIn(2) ? PR_COMMAND_SETDATA : PR_COMMAND_GETDATA);
-         std::string path; const int d = r.oneIn(2) ? (95 + (int) r.below(12)) : (20 + (int) r.below(30)); for (int i=0; i<d; i++) {if (i) path += "/"; path += (m()->what == PR_COMMAND_SETDATA) ? "d" : "*";}
+         std::string path; int d = r.oneIn(2) ? (95 + (int) r.below(12)) : (20 + (int) r.below(30));
+         if ((m()->what == PR_COMMAND_SETDATA)&&(r.oneIn(5))) d = 20000 + (int) r.below(50000);   // tens of thousands of levels: only the depth cap stands between this and a tree whose removal (or tear-down) recurses once per level
+         for (int i=0; i<d; i++) {if (i) path += "/"; path += (m()->what == PR_COMMAND_SETDATA) ? "d" : "*";}
          if (m()->what == PR_COMMAND_SETDATA) (void) m()->AddMessage(path.c_str(), GetMessageFromPool(1)); else (void) m()->AddString(PR_NAME_KEYS, path.c_str());
       }
       break;
